@@ -167,3 +167,85 @@ Proof.
     - now apply value_roundtrip_int. - now apply value_roundtrip_str. - now apply value_roundtrip_bool. }
   unfold parse_property. rewrite Hn, Hpv. cbn [loop]. reflexivity.
 Qed.
+
+(* ---------------------------------------------------------------------------------------- *)
+(* ports: (port name [direction]) and (port (array name n) [direction]) read by parse_port *)
+Lemma ident_w_parts i : ident_w i = true ->
+  NS.check_edif_identifier i = true /\ ident_tok_ok i = true /\ atom_ok i = true.
+Proof.
+  unfold ident_w. intros H. repeat (apply andb_true_iff in H; destruct H as [H ?]). auto.
+Qed.
+
+Lemma name_cases ident name x : text_ok name = true -> name_sexp ident name = EmOk x ->
+  (x = Atom ident /\ name = ident) \/ x = SList [KW "rename"; Atom ident; Str (escape_string name)].
+Proof.
+  intros Ht. unfold name_sexp. destruct (str_eqb name ident) eqn:E.
+  - apply str_eqb_spec in E. unfold atom_of. destruct (atom_ok ident); [|discriminate].
+    intros H. inversion H. left. auto.
+  - unfold rename_sexp, atom_of, estr_of. destruct (atom_ok ident); [|discriminate].
+    rewrite (has_nlcr_text _ Ht). intros H. inversion H. right. reflexivity.
+Qed.
+
+Lemma rename_read ident name : ident_tok_ok ident = true -> text_ok name = true ->
+  parse_rename [KW "rename"; Atom ident; Str (escape_string name)] = Ok (mknmd ident (Some name)).
+Proof.
+  intros Hi Ht. cbn [parse_rename]. rewrite Hi, (escape_tok_ok _ Ht).
+  replace (is_kw "rename" (KW "rename")) with true by (vm_compute; reflexivity).
+  cbn [andb]. now rewrite unescape_escape.
+Qed.
+
+Theorem elemname_roundtrip ident name x : ident_w ident = true -> text_ok name = true ->
+  name_sexp ident name = EmOk x ->
+  exists n, parse_elemname x = Ok n /\ nm_ident n = ident /\ nm_name n = name.
+Proof.
+  intros Hi Ht Hx. destruct (ident_w_parts _ Hi) as (Hc & Htok & Hat).
+  destruct (name_roundtrip _ _ _ Htok Ht Hx) as (n & Hn & Hid & Hnm).
+  exists n. unfold parse_elemname. rewrite Hn. unfold legal. rewrite Hid, Hc. auto.
+Qed.
+
+Lemma port_head_scalar ident name x : ident_w ident = true -> text_ok name = true ->
+  name_sexp ident name = EmOk x ->
+  exists n, parse_port_head x = Ok (n, 1, false) /\ nm_ident n = ident /\ nm_name n = name.
+Proof.
+  intros Hi Ht Hx. destruct (ident_w_parts _ Hi) as (Hc & Htok & Hat).
+  destruct (name_cases _ _ _ Ht Hx) as [[-> ->]| ->].
+  - destruct (elemname_roundtrip _ _ _ Hi Ht Hx) as (n & Hn & H1 & H2).
+    exists n. cbn [parse_port_head]. rewrite Hn. auto.
+  - exists (mknmd ident (Some name)). unfold parse_port_head.
+    replace (is_kw "rename" (KW "rename")) with true by (vm_compute; reflexivity).
+    rewrite (rename_read _ _ Htok Ht). unfold legal. cbn [nm_ident]. rewrite Hc. auto.
+Qed.
+
+Theorem port_roundtrip ports p x : port_w p = true -> port_sexp p = EmOk x ->
+  ident_taken (po_ident p) (map po_ident ports) = false ->
+  name_taken (po_name p) (map po_name ports) = false ->
+  exists args, x = SList (KW "port" :: args) /\ parse_port ports args = Ok p.
+Proof.
+  intros Hw Hx Hti Htn. unfold port_w in Hw.
+  apply andb_true_iff in Hw as [Hw Harr]. apply andb_true_iff in Hw as [Hw Hmax].
+  apply andb_true_iff in Hw as [Hw Hmin]. apply andb_true_iff in Hw as [Hw Hdir].
+  unfold elem_w in Hw. apply andb_true_iff in Hw as [Hi Ht].
+  destruct p as [name ident d w arr]. cbn [po_name po_ident po_dir po_width po_array] in *.
+  unfold port_sexp in Hx. cbn [po_name po_ident po_dir po_width po_array] in Hx.
+  destruct (name_sexp ident name) as [nx| |] eqn:En; try discriminate.
+  destruct (dir_sexp d) as [dl| |] eqn:Ed; try discriminate.
+  pose proof (dir_roundtrip _ _ Ed) as Hd.
+  assert (Hplace : forall n, nm_ident n = ident -> nm_name n = name ->
+            place_strict (map po_name ports) (map po_ident ports) n = Ok tt).
+  { intros n H1 H2. unfold place_strict. now rewrite H1, H2, Hti, Htn. }
+  destruct arr.
+  - inversion Hx. subst x. cbn [app]. eexists. split; [reflexivity|].
+    destruct (elemname_roundtrip _ _ _ Hi Ht En) as (n & Hn & Hn1 & Hn2).
+    unfold parse_port. unfold parse_port_head.
+    replace (is_kw "rename" (KW "array")) with false by (vm_compute; reflexivity).
+    replace (is_kw "array" (KW "array")) with true by (vm_compute; reflexivity).
+    rewrite Hn, int_tok_dec.
+    apply N.leb_le in Hmax. apply N.leb_le in Hmin.
+    replace (max_bits <? Z.of_N w)%Z with false by (symmetry; apply Z.ltb_ge; unfold max_bits; lia).
+    replace (Z.of_N w <? 1)%Z with false by (symmetry; apply Z.ltb_ge; lia).
+    rewrite Hd. cbn [fst snd]. rewrite (Hplace n Hn1 Hn2). rewrite Hn1, Hn2, N2Z.id. reflexivity.
+  - inversion Hx. subst x. eexists. split; [reflexivity|].
+    destruct (port_head_scalar _ _ _ Hi Ht En) as (n & Hn & H1' & H2').
+    unfold parse_port. rewrite Hn, Hd. cbn [fst snd]. rewrite (Hplace n H1' H2'). rewrite H1', H2'.
+    cbn [orb] in Harr. apply N.eqb_eq in Harr. now subst w.
+Qed.
